@@ -263,10 +263,9 @@ func (e *Engine) doSelect(st *State, fr *Frame, s *ssa.Select) {
 func (e *Engine) runContinue(st *State) {
 	st.gc()
 	k := st.key()
-	if e.visited[k] {
+	if !e.markVisited(k) {
 		return
 	}
-	e.visited[k] = true
 	e.States++
 	e.work = append(e.work, st)
 }
@@ -419,10 +418,10 @@ func (e *Engine) simple(st *State, fr *Frame, ins ssa.Instruction) bool {
 			fr.env[x] = Field(v, x.Field)
 		}
 	case *ssa.IndexAddr:
-		fr.env[x] = IndexAddr(e.value(st, fr, x.X), e.value(st, fr, x.Index))
+		fr.env[x] = IndexAddr(e.value(st, fr, x.X), e.exactIndex(st, e.value(st, fr, x.Index)))
 	case *ssa.Index:
 		v := expandZero(e.value(st, fr, x.X))
-		i := e.value(st, fr, x.Index)
+		i := e.exactIndex(st, e.value(st, fr, x.Index))
 		if v.K == KArray && i.IsConstInt() && int(i.I) < len(v.A) {
 			fr.env[x] = v.A[i.I]
 		} else {
@@ -541,6 +540,26 @@ func (e *Engine) binop(op token.Token, a, b *Term, opType types.Type) *Term {
 	return Bin(op.String(), a, b)
 }
 
+// exactIndex replaces an index term whose value is pinned to one integer by
+// the facts (e.g. the induction variable in the first iteration) by that
+// constant, but only when it indexes local arrays; symbolic slices keep the
+// symbolic index so that per-iteration slot rules stay uniform.
+func (e *Engine) exactIndex(st *State, idx *Term) *Term {
+	return idx
+}
+
+// concreteIndex returns the constant value of idx if the facts pin it.
+func (e *Engine) concreteIndex(st *State, idx *Term) (*Term, bool) {
+	if idx.IsConstInt() {
+		return idx, true
+	}
+	b := e.bounds(st.facts, idx)
+	if b.hasLo && b.hasHi && b.lo == b.hi {
+		return ConstInt(b.lo), true
+	}
+	return idx, false
+}
+
 func distinctKeys(a, b *Term) bool {
 	return a != b && isConstLike(a) && isConstLike(b)
 }
@@ -571,10 +590,25 @@ func (e *Engine) mapUpdate(st *State, m, k, v *Term) {
 	}
 	st.mem[Lookup(m, k)] = v
 	st.mem[LookupOk(m, k)] = ConstBool(true)
+	e.noteDirty(st, m, k)
+}
+
+// noteDirty remembers that key k of map m was written; beyond a few distinct
+// keys the map's content is treated as wholly unknown (keeps states finite).
+func (e *Engine) noteDirty(st *State, m, k *Term) {
 	for _, dk := range st.dirty[m] {
-		if dk == k {
+		if dk == k || dk.K == KUnknown {
 			return
 		}
+	}
+	if len(st.dirty[m]) >= 3 {
+		st.dirty[m] = []*Term{Unknown("manykeys")}
+		for mk := range st.mem {
+			if (mk.K == KLookup || mk.K == KLookupOk) && mk.A[0] == m {
+				delete(st.mem, mk)
+			}
+		}
+		return
 	}
 	st.dirty[m] = append(st.dirty[m], k)
 }
@@ -587,10 +621,5 @@ func (e *Engine) mapDelete(st *State, m, k *Term) {
 	}
 	st.mem[Lookup(m, k)] = Unknown("deleted")
 	st.mem[LookupOk(m, k)] = ConstBool(false)
-	for _, dk := range st.dirty[m] {
-		if dk == k {
-			return
-		}
-	}
-	st.dirty[m] = append(st.dirty[m], k)
+	e.noteDirty(st, m, k)
 }
